@@ -211,6 +211,18 @@ func c12Exec(cs c12Case) (*fw.Violation, *harness.Client) {
 		case "goaway-1-then-finish":
 			feed(peer.GoAway(s1, 0, "").Bytes())
 			feed(serialize([]peer.Frame{script[0], script[1], script[2], script[7]}))
+		case "many-callers-behind-stalled-write", "many-callers-then-close":
+			// the server stops reading; 140 more requests are handed to the connection (more than its queues hold);
+			// then the server goes away (or the user closes the client): every one of them must be resolved
+			h.ServerStall(0)
+			for i := 0; i < 140; i++ {
+				calls = append(calls, h.Go(harness.ReqSpec{Tag: fmt.Sprint("q", i), Method: "GET", Path: fmt.Sprint("/q", i)}))
+			}
+			if cs.Name == "many-callers-then-close" {
+				h.CloseClient()
+			}
+			h.Conns[0].Stalled = false
+			h.ServerClose(0)
 		case "goaway-two-step-then-finish":
 			// graceful shutdown as RFC 7540 6.8 describes it: an announcing GOAWAY(2^31-1), then the real one naming
 			// the first request, which is then answered. The second request is disclaimed by the second GOAWAY: it
@@ -529,7 +541,7 @@ func runC12(c *fw.Ctx) {
 		do(c12Case{Family: "mutate", Mut: m})
 	}
 	c.Family("mutate")
-	for _, n := range []string{"rst-one", "rst-refused", "goaway-0", "goaway-1-then-finish", "goaway-two-step-then-finish", "goaway-error-mid-response", "goaway-covering-then-new-connection-then-close", "oversized-frame", "garbage", "push-promise", "silence", "late-response-after-timeout", "window-update-overflow", "settings-invalid", "headers-on-unknown-stream", "data-before-headers", "ping-flood", "early-response-to-blocked-upload", "early-reset-of-blocked-upload", "not-reading-ping-flood", "not-reading-settings-flood"} {
+	for _, n := range []string{"rst-one", "rst-refused", "many-callers-behind-stalled-write", "many-callers-then-close", "goaway-0", "goaway-1-then-finish", "goaway-two-step-then-finish", "goaway-error-mid-response", "goaway-covering-then-new-connection-then-close", "oversized-frame", "garbage", "push-promise", "silence", "late-response-after-timeout", "window-update-overflow", "settings-invalid", "headers-on-unknown-stream", "data-before-headers", "ping-flood", "early-response-to-blocked-upload", "early-reset-of-blocked-upload", "not-reading-ping-flood", "not-reading-settings-flood"} {
 		do(c12Case{Family: "hostile", Name: n})
 	}
 	c.Family("hostile")
@@ -557,7 +569,7 @@ func runC12(c *fw.Ctx) {
 	for cut := 0; cut <= total; cut += step {
 		do(c12Case{Family: "cut", Cut: cut, NoTimeout: true})
 	}
-	for _, n := range []string{"goaway-0", "goaway-two-step-then-finish", "goaway-error-mid-response", "goaway-covering-then-new-connection-then-close", "oversized-frame", "garbage", "push-promise", "window-update-overflow", "settings-invalid"} {
+	for _, n := range []string{"many-callers-behind-stalled-write", "many-callers-then-close", "goaway-0", "goaway-two-step-then-finish", "goaway-error-mid-response", "goaway-covering-then-new-connection-then-close", "oversized-frame", "garbage", "push-promise", "window-update-overflow", "settings-invalid"} {
 		do(c12Case{Family: "hostile", Name: n, NoTimeout: true})
 		do(c12Case{Family: "hostile", Name: n, NoTimeout: true, Streamed: true})
 	}
